@@ -4,6 +4,8 @@
 From Adb Require Import Base BaseProofs C17_Model.
 From Coq Require Import ZifyBool ZifyNat ZifyN Permutation.
 
+Arguments spell : simpl never.
+
 (* ------------------------------------------------------------------ small generic facts *)
 Lemma null_true {A} (l : list A) : null l = true <-> l = [].
 Proof. destruct l; cbn; split; congruence. Qed.
@@ -363,3 +365,614 @@ Proof.
     + intros H _; inversion H; subst cs t. cbn. rewrite (step_plain_none _ Hs). reflexivity.
 Qed.
 End Key.
+
+(* ------------------------------------------------------------------ key_from_selector = L0 *)
+Section KeySpec.
+Variable uw : N -> bool.
+
+Lemma spell_map_lit cs : spell (map Lit cs) = List.concat cs.
+Proof. unfold spell. rewrite map_map. cbn. rewrite map_id. reflexivity. Qed.
+
+Lemma css_value_lit cs : css_value (map Lit cs) = Some (List.concat cs).
+Proof. induction cs as [|c cs IH]; cbn; [reflexivity|]. rewrite IH. reflexivity. Qed.
+
+Lemma lead_items_respell r its rest :
+  lead_items uw r = (its, rest) -> lead_items uw (spell its) = (its, []).
+Proof.
+  unfold lead_items. intros H. destruct (loop_items_chain _ _ _ _ _ H) as (_ & Hc).
+  apply loop_chain; [eapply chain_trunc; exact Hc|]. eapply chain_length. exact Hc.
+Qed.
+
+Lemma chain_spell_nil its rest : chain uw its rest -> spell its = [] -> its = [].
+Proof.
+  intros Hc Hs. apply chain_length in Hc. rewrite Hs in Hc. destruct its; [reflexivity|cbn in Hc; lia].
+Qed.
+
+Lemma unescape_head p m : p <> BSL -> unescape O (p :: m) = omap (cons p) (unescape O m).
+Proof. intros Hp. cbn. apply N.eqb_neq in Hp. rewrite Hp. reflexivity. Qed.
+
+Theorem key_refines s : key_from_selector uw s = key_spec uw s.
+Proof.
+  destruct s as [|p r]; [reflexivity|].
+  unfold key_from_selector, key_spec.
+  destruct (N.eqb p HASHC || N.eqb p DOT) eqn:Hp; [|reflexivity].
+  assert (Hpb : p <> BSL).
+  { apply orb_true_iff in Hp as [Hp|Hp]; apply N.eqb_eq in Hp; subst p; discriminate. }
+  unfold css_unescape, leading_simple_selector.
+  destruct (lead_items uw r) as [its rest] eqn:Hl. cbn [fst].
+  rewrite (lead_items_respell _ _ _ Hl). cbn [fst].
+  pose proof Hl as Hl'. unfold lead_items in Hl'.
+  destruct (loop_items_chain _ _ _ _ _ Hl') as (_ & Hc).
+  destruct (loop (step_plain uw) (length r) r) as [cs t] eqn:H1. cbn [fst].
+  destruct (null (List.concat cs)) eqn:Hn1.
+  - apply null_true in Hn1.
+    assert (Hnb : ~ In BSL (List.concat cs)) by (rewrite Hn1; intros []).
+    pose proof (loop_plain_items uw _ _ _ _ H1 Hnb) as H2. rewrite Hl' in H2. inversion H2; subst its rest.
+    assert (E : map Lit cs = []).
+    { eapply chain_spell_nil; [exact Hc|]. rewrite spell_map_lit. exact Hn1. }
+    rewrite E. reflexivity.
+  - destruct (memN BSL (List.concat cs)) eqn:Hm; cbn [negb].
+    + rewrite (loop_map spelling (next_item uw) (step_escaped uw) (step_escaped_next uw)).
+      rewrite Hl'. cbn [fst]. fold (spell its).
+      destruct (null (spell its)) eqn:Hn2.
+      * apply null_true in Hn2. rewrite (chain_spell_nil _ _ Hc Hn2). reflexivity.
+      * destruct its as [|it its']; [discriminate|]. cbn [null].
+        rewrite (unescape_head _ _ Hpb). f_equal. apply (unescape_chain uw). eapply chain_trunc. exact Hc.
+    + assert (Hnb : ~ In BSL (List.concat cs)).
+      { intros Hin. apply memN_In in Hin. congruence. }
+      pose proof (loop_plain_items uw _ _ _ _ H1 Hnb) as H2. rewrite Hl' in H2. inversion H2; subst its rest.
+      destruct cs as [|c cs']; [discriminate|]. cbn [map null].
+      change (Lit c :: map Lit cs') with (map Lit (c :: cs')). rewrite css_value_lit. reflexivity.
+Qed.
+
+(* the decomposition the L0 functions compute *)
+Theorem lead_items_spec r its rest :
+  lead_items uw r = (its, rest) ->
+  r = spell its ++ rest /\ chain uw its rest /\ next_item uw rest = None.
+Proof.
+  unfold lead_items. intros H. destruct (loop_items_chain _ _ _ _ _ H) as (Hs & Hc).
+  repeat split; auto. eapply loop_items_stop; [|exact H]. lia.
+Qed.
+
+Theorem key_unescape s k :
+  key_from_selector uw s = Some k -> css_unescape uw (leading_simple_selector uw s) = Some k.
+Proof.
+  rewrite key_refines. unfold key_spec. destruct s as [|p r]; [discriminate|].
+  destruct (N.eqb p HASHC || N.eqb p DOT); [auto|discriminate].
+Qed.
+
+(* the full picture: the selector is p ++ items ++ rest, the items are the longest run, the key
+   is p followed by the values *)
+Theorem key_some_iff s k :
+  key_from_selector uw s = Some k <->
+  exists p its rest v,
+    s = p :: spell its ++ rest /\ (p = DOT \/ p = HASHC) /\ its <> [] /\ chain uw its rest /\
+    next_item uw rest = None /\ css_value its = Some v /\ k = p :: v.
+Proof.
+  rewrite key_refines. unfold key_spec. destruct s as [|p r].
+  - split; [discriminate|]. intros (p & its & rest & v & H & _). discriminate.
+  - unfold css_unescape, leading_simple_selector.
+    destruct (lead_items uw r) as [its rest] eqn:Hl. cbn [fst].
+    rewrite (lead_items_respell _ _ _ Hl). cbn [fst].
+    destruct (lead_items_spec _ _ _ Hl) as (Hr & Hc & Hstop).
+    split.
+    + destruct (N.eqb p HASHC || N.eqb p DOT) eqn:Hp; [|discriminate].
+      destruct its as [|it its']; [discriminate|]. cbn [null].
+      intros H. apply omap_Some in H as (v & Hv & ->).
+      exists p, (it :: its'), rest, v.
+      split; [congruence|]. split; [apply orb_true_iff in Hp as [Hp|Hp]; apply N.eqb_eq in Hp; auto|].
+      split; [discriminate|]. split; [exact Hc|]. split; [exact Hstop|]. split; [exact Hv|reflexivity].
+    + intros (p' & its' & rest' & v & Hs & Hp & Hne & Hc' & Hstop' & Hv & ->).
+      inversion Hs; subst p'.
+      (* the decomposition is unique: both are what the loop computes *)
+      assert (Hl2 : lead_items uw r = (its', rest')).
+      { unfold lead_items. rewrite H1. clear - Hc' Hstop'.
+        assert (G : forall f, (length its' <= f)%nat -> loop (next_item uw) f (spell its' ++ rest') = (its', rest')).
+        { induction its' as [|it its IH]; intros f Hf.
+          - destruct f; cbn; [reflexivity|]. unfold spell. cbn. rewrite Hstop'. reflexivity.
+          - destruct f as [|f]; [cbn in Hf; lia|]. destruct Hc' as (Hok & Hc'). cbn [loop].
+            rewrite spell_cons, <- app_assoc, (next_item_intro _ _ _ Hok).
+            rewrite IH by (auto; cbn in Hf; lia). reflexivity. }
+        apply G. rewrite app_length. pose proof (chain_length _ _ _ Hc'). lia. }
+      rewrite Hl in Hl2. inversion Hl2; subst its' rest'.
+      assert (Hpp : N.eqb p HASHC || N.eqb p DOT = true).
+      { destruct Hp as [->| ->]; reflexivity. }
+      rewrite Hpp. destruct its; [contradiction|]. cbn [null]. rewrite Hv. reflexivity.
+Qed.
+
+Theorem key_head s k :
+  key_from_selector uw s = Some k ->
+  exists p r k', s = p :: r /\ k = p :: k' /\ (p = DOT \/ p = HASHC).
+Proof.
+  intros H. apply key_some_iff in H as (p & its & rest & v & -> & Hp & _ & _ & _ & _ & ->).
+  exists p, (spell its ++ rest), v. auto.
+Qed.
+
+Theorem key_none_iff s :
+  key_from_selector uw s = None <->
+  match s with
+  | [] => True
+  | p :: r => (p <> DOT /\ p <> HASHC) \/ fst (lead_items uw r) = [] \/ css_value (fst (lead_items uw r)) = None
+  end.
+Proof.
+  rewrite key_refines. unfold key_spec. destruct s as [|p r]; [tauto|].
+  unfold css_unescape, leading_simple_selector.
+  destruct (lead_items uw r) as [its rest] eqn:Hl. cbn [fst].
+  rewrite (lead_items_respell _ _ _ Hl). cbn [fst].
+  destruct (N.eqb p HASHC || N.eqb p DOT) eqn:Hp.
+  - assert (Hp' : ~ (p <> DOT /\ p <> HASHC)).
+    { intros (A & B). apply orb_true_iff in Hp as [Hp|Hp]; apply N.eqb_eq in Hp; auto. }
+    destruct its as [|it its']; cbn [null]; [tauto|].
+    destruct (css_value (it :: its')); cbn; split; try tauto; try discriminate.
+    intros [H|[H|H]]; [tauto|discriminate|discriminate].
+  - split; [|reflexivity]. intros _. left. apply orb_false_iff in Hp as [A B].
+    apply N.eqb_neq in A, B. auto.
+Qed.
+End KeySpec.
+
+(* ------------------------------------------------------------------ sets and maps *)
+Lemma place_eqb_eq a b : place_eqb a b = true <-> a = b.
+Proof.
+  destruct a, b; cbn; split; intros H; try discriminate; try reflexivity;
+    try (apply str_eqb_eq in H; congruence); try (inversion H; apply str_eqb_refl).
+Qed.
+
+Lemma not_mem_str x l : negb (mem_str x l) = true <-> ~ In x l.
+Proof.
+  rewrite negb_true_iff. split.
+  - intros H Hin. apply mem_str_In in Hin. congruence.
+  - intros H. destruct (mem_str x l) eqn:E; [|reflexivity]. apply mem_str_In in E. contradiction.
+Qed.
+
+Lemma set_insert_In x y l : In x (set_insert y l) <-> x = y \/ In x l.
+Proof.
+  unfold set_insert. destruct (mem_str y l) eqn:E.
+  - apply mem_str_In in E. split; [auto|]. intros [->|H]; auto.
+  - rewrite in_app_iff. cbn. split; [intros [H|[H|[]]]; auto|intros [H|H]; auto].
+Qed.
+
+Lemma bucket_push k k' v m :
+  bucket k (map_push k' v m) = if str_eqb k k' then bucket k m ++ [v] else bucket k m.
+Proof.
+  induction m as [|[k'' b] m IH].
+  - unfold bucket. cbn. destruct (str_eqb k k'); reflexivity.
+  - cbn [map_push]. destruct (str_eqb k' k'') eqn:E1.
+    + apply str_eqb_eq in E1; subst k''. unfold bucket. cbn [map_get].
+      destruct (str_eqb k k'); reflexivity.
+    + unfold bucket in *. cbn [map_get]. destruct (str_eqb k k'') eqn:E3; [|exact IH].
+      apply str_eqb_eq in E3; subst k''. destruct (str_eqb k k') eqn:E4; [|reflexivity].
+      apply str_eqb_eq in E4; subst k'. rewrite str_eqb_refl in E1. discriminate.
+Qed.
+
+Lemma filter_snoc {A} (f : A -> bool) G s : filter f (G ++ [s]) = filter f G ++ (if f s then [s] else []).
+Proof. rewrite filter_app. cbn. destruct (f s); reflexivity. Qed.
+
+Lemma NoDup_app_intro {A} (a b : list A) :
+  NoDup a -> NoDup b -> (forall x, In x a -> ~ In x b) -> NoDup (a ++ b).
+Proof.
+  induction a as [|x a IH]; cbn; intros Ha Hb H; [exact Hb|].
+  inversion Ha; subst. constructor.
+  - rewrite in_app_iff. intros [G|G]; [contradiction|]. apply (H x); auto.
+  - apply IH; auto.
+Qed.
+
+Lemma NoDup_flat_map {A B} (f : A -> list B) l :
+  NoDup l -> (forall x, In x l -> NoDup (f x)) ->
+  (forall x y z, In x l -> In y l -> In z (f x) -> In z (f y) -> x = y) ->
+  NoDup (flat_map f l).
+Proof.
+  induction l as [|a l IH]; cbn; intros Hnd H1 H2; [constructor|].
+  inversion Hnd; subst. apply NoDup_app_intro.
+  - apply H1. auto.
+  - apply IH; auto. intros x y z Hx Hy. apply H2; auto.
+  - intros z Hz Hz'. apply in_flat_map in Hz' as (y & Hy & Hzy).
+    assert (a = y) by (apply (H2 a y z); auto). subst y. contradiction.
+Qed.
+
+(* ------------------------------------------------------------------ the stores *)
+Section Stores.
+Variable uw : N -> bool.
+Notation key := (key_from_selector uw).
+Notation classify := (classify uw).
+Notation build := (build uw).
+Notation add_generic := (add_generic uw).
+
+Lemma classify_spec s :
+  match key s with
+  | Some (p :: k) =>
+      exists r, s = p :: r /\
+        ((p = DOT /\ classify s = if str_eqb (p :: k) s then PSimpleClass else PComplexClass k) \/
+         (p = HASHC /\ classify s = if str_eqb (p :: k) s then PSimpleId else PComplexId k))
+  | Some [] => False
+  | None => classify s = PMisc
+  end.
+Proof.
+  destruct (key s) as [k|] eqn:Hk.
+  - destruct (key_head uw _ _ Hk) as (p & r & k' & -> & -> & Hp). exists r. split; [reflexivity|].
+    unfold C17_Model.classify. destruct Hp as [->| ->].
+    + left. split; [reflexivity|]. change (N.eqb DOT DOT) with true. cbn iota. rewrite Hk. reflexivity.
+    + right. split; [reflexivity|]. change (N.eqb HASHC DOT) with false.
+      change (N.eqb HASHC HASHC) with true. cbn iota. rewrite Hk. reflexivity.
+  - unfold C17_Model.classify. destruct s as [|p r]; [reflexivity|].
+    destruct (N.eqb p DOT); [rewrite Hk; reflexivity|].
+    destruct (N.eqb p HASHC); [rewrite Hk; reflexivity|reflexivity].
+Qed.
+
+Lemma classify_misc_iff s : classify s = PMisc <-> key s = None.
+Proof.
+  pose proof (classify_spec s) as H. destruct (key s) as [[|p k]|]; [contradiction| |tauto].
+  destruct H as (r & -> & [(-> & H)|(-> & H)]); rewrite H;
+    destruct (str_eqb _ _); split; discriminate.
+Qed.
+
+Lemma classify_sc s : classify s = PSimpleClass <-> exists c, s = DOT :: c /\ key s = Some s.
+Proof.
+  pose proof (classify_spec s) as H. destruct (key s) as [[|p k]|] eqn:Hk; [contradiction| |].
+  - destruct H as (r & -> & [(-> & H)|(-> & H)]); rewrite H.
+    + destruct (str_eqb (DOT :: k) (DOT :: r)) eqn:E.
+      * apply str_eqb_eq in E. inversion E; subst. split; eauto.
+      * apply str_eqb_neq in E. split; [discriminate|]. intros (c & A & B). congruence.
+    + destruct (str_eqb _ _); (split; [discriminate|]); intros (c & A & B); discriminate.
+  - rewrite H. split; [discriminate|]. intros (c & A & B). discriminate.
+Qed.
+
+Lemma classify_si s : classify s = PSimpleId <-> exists c, s = HASHC :: c /\ key s = Some s.
+Proof.
+  pose proof (classify_spec s) as H. destruct (key s) as [[|p k]|] eqn:Hk; [contradiction| |].
+  - destruct H as (r & -> & [(-> & H)|(-> & H)]); rewrite H.
+    + destruct (str_eqb _ _); (split; [discriminate|]); intros (c & A & B); discriminate.
+    + destruct (str_eqb (HASHC :: k) (HASHC :: r)) eqn:E.
+      * apply str_eqb_eq in E. inversion E; subst. split; eauto.
+      * apply str_eqb_neq in E. split; [discriminate|]. intros (c & A & B). congruence.
+  - rewrite H. split; [discriminate|]. intros (c & A & B). discriminate.
+Qed.
+
+Lemma classify_cc s k : classify s = PComplexClass k <-> key s = Some (DOT :: k) /\ s <> DOT :: k.
+Proof.
+  pose proof (classify_spec s) as H. destruct (key s) as [[|p k']|] eqn:Hk; [contradiction| |].
+  - destruct H as (r & -> & [(-> & H)|(-> & H)]); rewrite H.
+    + destruct (str_eqb (DOT :: k') (DOT :: r)) eqn:E.
+      * apply str_eqb_eq in E. split; [discriminate|]. intros (A & B). inversion A; subst. congruence.
+      * apply str_eqb_neq in E. split.
+        -- intros A. inversion A; subst. split; [reflexivity|]. congruence.
+        -- intros (A & B). inversion A; subst. reflexivity.
+    + destruct (str_eqb _ _); (split; [discriminate|]); intros (A & B); discriminate.
+  - rewrite H. split; [discriminate|]. intros (A & B). discriminate.
+Qed.
+
+Lemma classify_ci s k : classify s = PComplexId k <-> key s = Some (HASHC :: k) /\ s <> HASHC :: k.
+Proof.
+  pose proof (classify_spec s) as H. destruct (key s) as [[|p k']|] eqn:Hk; [contradiction| |].
+  - destruct H as (r & -> & [(-> & H)|(-> & H)]); rewrite H.
+    + destruct (str_eqb _ _); (split; [discriminate|]); intros (A & B); discriminate.
+    + destruct (str_eqb (HASHC :: k') (HASHC :: r)) eqn:E.
+      * apply str_eqb_eq in E. split; [discriminate|]. intros (A & B). inversion A; subst. congruence.
+      * apply str_eqb_neq in E. split.
+        -- intros A. inversion A; subst. split; [reflexivity|]. congruence.
+        -- intros (A & B). inversion A; subst. reflexivity.
+  - rewrite H. split; [discriminate|]. intros (A & B). discriminate.
+Qed.
+
+(* invariant of the stores after adding the generic selectors G *)
+Record inv (G : list str) (st : stores) : Prop := mkInv {
+  inv_sc : forall c, In c (simple_class st) <-> In (DOT :: c) G /\ classify (DOT :: c) = PSimpleClass;
+  inv_cc : forall k, bucket k (complex_class st) = filter (fun s => place_eqb (classify s) (PComplexClass k)) G;
+  inv_si : forall c, In c (simple_id st) <-> In (HASHC :: c) G /\ classify (HASHC :: c) = PSimpleId;
+  inv_ci : forall k, bucket k (complex_id st) = filter (fun s => place_eqb (classify s) (PComplexId k)) G;
+  inv_mi : forall s, In s (misc st) <-> In s G /\ classify s = PMisc
+}.
+
+Lemma set_unchanged (mk : str -> str) pl l G s :
+  (forall c, In c l <-> In (mk c) G /\ classify (mk c) = pl) -> classify s <> pl ->
+  forall c, In c l <-> In (mk c) (G ++ [s]) /\ classify (mk c) = pl.
+Proof.
+  intros H Hs c. rewrite H, in_app_iff. cbn. split; [intros [A B]; auto|].
+  intros [[A|[A|[]]] B]; auto. subst s. contradiction.
+Qed.
+
+Lemma set_changed (mk : str -> str) pl l G s c0 :
+  (forall a b, mk a = mk b -> a = b) ->
+  (forall c, In c l <-> In (mk c) G /\ classify (mk c) = pl) -> classify s = pl -> s = mk c0 ->
+  forall c, In c (set_insert c0 l) <-> In (mk c) (G ++ [s]) /\ classify (mk c) = pl.
+Proof.
+  intros Hinj H Hs -> c. rewrite set_insert_In, H, in_app_iff. cbn. split.
+  - intros [->|[A B]]; auto.
+  - intros [[A|[A|[]]] B]; [auto|left; apply Hinj; auto].
+Qed.
+
+Lemma bucket_unchanged (mk : str -> place) m G s :
+  (forall k, bucket k m = filter (fun x => place_eqb (classify x) (mk k)) G) ->
+  (forall k, classify s <> mk k) ->
+  forall k, bucket k m = filter (fun x => place_eqb (classify x) (mk k)) (G ++ [s]).
+Proof.
+  intros H Hs k. rewrite filter_snoc, H.
+  destruct (place_eqb (classify s) (mk k)) eqn:E; [|rewrite app_nil_r; reflexivity].
+  apply place_eqb_eq in E. exfalso. apply (Hs k). exact E.
+Qed.
+
+Lemma bucket_changed (mk : str -> place) m G s k0 :
+  (forall a b, mk a = mk b <-> a = b) ->
+  (forall k, bucket k m = filter (fun x => place_eqb (classify x) (mk k)) G) ->
+  classify s = mk k0 ->
+  forall k, bucket k (map_push k0 s m) = filter (fun x => place_eqb (classify x) (mk k)) (G ++ [s]).
+Proof.
+  intros Hmk H Hs k. rewrite filter_snoc, bucket_push, H, Hs.
+  destruct (str_eqb k k0) eqn:E.
+  - apply str_eqb_eq in E. subst k0.
+    assert (E2 : place_eqb (mk k) (mk k) = true) by (apply place_eqb_eq; reflexivity).
+    rewrite E2. reflexivity.
+  - apply str_eqb_neq in E.
+    destruct (place_eqb (mk k0) (mk k)) eqn:E2; [|rewrite app_nil_r; reflexivity].
+    apply place_eqb_eq, Hmk in E2. congruence.
+Qed.
+
+Lemma inv_empty : inv [] empty_stores.
+Proof.
+  constructor; cbn; intros; try reflexivity; split; try intros []; intros [[] _].
+Qed.
+
+Lemma cons_inj (p : N) (a b : str) : p :: a = p :: b -> a = b.
+Proof. congruence. Qed.
+
+Lemma inv_step G st s : inv G st -> inv (G ++ [s]) (add_generic st s).
+Proof.
+  intros [Hsc Hcc Hsi Hci Hmi]. unfold C17_Model.add_generic.
+  assert (Mc : forall a b, PComplexClass a = PComplexClass b <-> a = b) by (intros; split; congruence).
+  assert (Mi : forall a b, PComplexId a = PComplexId b <-> a = b) by (intros; split; congruence).
+  destruct (classify s) eqn:Hcl; constructor; cbn [simple_class complex_class simple_id complex_id misc].
+  (* PSimpleClass *)
+  - apply classify_sc in Hcl as Hs. destruct Hs as (c0 & -> & _). cbn [tl].
+    apply (set_changed (cons DOT) PSimpleClass); auto. apply cons_inj.
+  - apply (bucket_unchanged PComplexClass); auto. intros k; congruence.
+  - apply (set_unchanged (cons HASHC)); auto. congruence.
+  - apply (bucket_unchanged PComplexId); auto. intros k'; congruence.
+  - apply (set_unchanged (fun x => x)); auto. congruence.
+  (* PComplexClass *)
+  - apply (set_unchanged (cons DOT)); auto. congruence.
+  - apply (bucket_changed PComplexClass); auto.
+  - apply (set_unchanged (cons HASHC)); auto. congruence.
+  - apply (bucket_unchanged PComplexId); auto. intros k'; congruence.
+  - apply (set_unchanged (fun x => x)); auto. congruence.
+  (* PSimpleId *)
+  - apply (set_unchanged (cons DOT)); auto. congruence.
+  - apply (bucket_unchanged PComplexClass); auto. intros k; congruence.
+  - apply classify_si in Hcl as Hs. destruct Hs as (c0 & -> & _). cbn [tl].
+    apply (set_changed (cons HASHC) PSimpleId); auto. apply cons_inj.
+  - apply (bucket_unchanged PComplexId); auto. intros k'; congruence.
+  - apply (set_unchanged (fun x => x)); auto. congruence.
+  (* PComplexId *)
+  - apply (set_unchanged (cons DOT)); auto. congruence.
+  - apply (bucket_unchanged PComplexClass); auto. intros k'; congruence.
+  - apply (set_unchanged (cons HASHC)); auto. congruence.
+  - apply (bucket_changed PComplexId); auto.
+  - apply (set_unchanged (fun x => x)); auto. congruence.
+  (* PMisc *)
+  - apply (set_unchanged (cons DOT)); auto. congruence.
+  - apply (bucket_unchanged PComplexClass); auto. intros k; congruence.
+  - apply (set_unchanged (cons HASHC)); auto. congruence.
+  - apply (bucket_unchanged PComplexId); auto. intros k'; congruence.
+  - apply (set_changed (fun x => x) PMisc); auto.
+Qed.
+
+Lemma build_snoc G s : build (G ++ [s]) = add_generic (build G) s.
+Proof. unfold C17_Model.build. rewrite fold_left_app. reflexivity. Qed.
+
+Lemma build_inv G : inv G (build G).
+Proof.
+  induction G as [|s G IH] using rev_ind; [exact inv_empty|].
+  rewrite build_snoc. apply inv_step. exact IH.
+Qed.
+
+(* ---------------------------------------------------------------- partition *)
+Theorem partition_exclusive G pl s :
+  holds (build G) pl s = true <-> In s G /\ classify s = pl.
+Proof.
+  destruct (build_inv G) as [Hsc Hcc Hsi Hci Hmi]. destruct pl; cbn [holds].
+  - destruct s as [|p c].
+    + split; [discriminate|]. intros [_ H]. apply classify_sc in H as (c & A & _). discriminate.
+    + rewrite andb_true_iff, N.eqb_eq, mem_str_In, Hsc. split.
+      * intros (-> & A & B). auto.
+      * intros (A & B). apply classify_sc in B as B'. destruct B' as (c' & E & _). inversion E; subst. auto.
+  - rewrite mem_str_In, Hcc, filter_In, place_eqb_eq. tauto.
+  - destruct s as [|p c].
+    + split; [discriminate|]. intros [_ H]. apply classify_si in H as (c & A & _). discriminate.
+    + rewrite andb_true_iff, N.eqb_eq, mem_str_In, Hsi. split.
+      * intros (-> & A & B). auto.
+      * intros (A & B). apply classify_si in B as B'. destruct B' as (c' & E & _). inversion E; subst. auto.
+  - rewrite mem_str_In, Hci, filter_In, place_eqb_eq. tauto.
+  - rewrite mem_str_In, Hmi. tauto.
+Qed.
+
+Corollary partition_unique G s :
+  In s G -> exists! pl, holds (build G) pl s = true.
+Proof.
+  intros H. exists (classify s). split.
+  - apply partition_exclusive. auto.
+  - intros pl Hpl. apply partition_exclusive in Hpl as [_ E]. exact E.
+Qed.
+
+(* ---------------------------------------------------------------- lookup *)
+Lemma lookup_one_In simple complex p E c s :
+  In s (lookup_one simple complex p E c) <->
+  (s = p :: c /\ In c simple /\ ~ In s E) \/ (In s (bucket c complex) /\ ~ In s E).
+Proof.
+  unfold lookup_one, bucket. rewrite in_app_iff. split.
+  - intros [H|H].
+    + destruct (mem_str c simple && negb (mem_str (p :: c) E)) eqn:E1; [|destruct H].
+      destruct H as [<-|[]]. apply andb_true_iff in E1 as [A B].
+      apply mem_str_In in A. apply not_mem_str in B. auto.
+    + destruct (map_get c complex); [|destruct H]. apply filter_In in H as [A B].
+      apply not_mem_str in B. auto.
+  - intros [(-> & A & B)|(A & B)].
+    + left. apply mem_str_In in A. apply not_mem_str in B. rewrite A, B. cbn. auto.
+    + right. destruct (map_get c complex); [|destruct A]. apply filter_In. split; [exact A|].
+      apply not_mem_str. exact B.
+Qed.
+
+Lemma class_part G C E s :
+  In s (flat_map (lookup_one (simple_class (build G)) (complex_class (build G)) DOT E) C) <->
+  In s G /\ ~ In s E /\ exists c, In c C /\ key s = Some (DOT :: c).
+Proof.
+  destruct (build_inv G) as [Hsc Hcc _ _ _]. rewrite in_flat_map. split.
+  - intros (c & Hc & H). apply lookup_one_In in H as [(-> & A & B)|(A & B)].
+    + apply Hsc in A as (A1 & A2). apply classify_sc in A2 as (c' & _ & A2). eauto 6.
+    + rewrite Hcc in A. apply filter_In in A as (A1 & A2). apply place_eqb_eq, classify_cc in A2 as (A2 & _).
+      eauto 6.
+  - intros (HG & HE & c & Hc & Hk). exists c. split; [exact Hc|]. apply lookup_one_In.
+    destruct (key_head uw _ _ Hk) as (p & r & k' & -> & Ek & _). inversion Ek; subst p k'.
+    destruct (str_eqb (DOT :: r) (DOT :: c)) eqn:E1.
+    + apply str_eqb_eq in E1. inversion E1; subst r. left. split; [reflexivity|]. split; [|exact HE].
+      apply Hsc. split; [exact HG|]. apply classify_sc. eauto.
+    + apply str_eqb_neq in E1. right. split; [|exact HE]. rewrite Hcc. apply filter_In. split; [exact HG|].
+      apply place_eqb_eq, classify_cc. auto.
+Qed.
+
+Lemma id_part G I E s :
+  In s (flat_map (lookup_one (simple_id (build G)) (complex_id (build G)) HASHC E) I) <->
+  In s G /\ ~ In s E /\ exists c, In c I /\ key s = Some (HASHC :: c).
+Proof.
+  destruct (build_inv G) as [_ _ Hsi Hci _]. rewrite in_flat_map. split.
+  - intros (c & Hc & H). apply lookup_one_In in H as [(-> & A & B)|(A & B)].
+    + apply Hsi in A as (A1 & A2). apply classify_si in A2 as (c' & _ & A2). eauto 6.
+    + rewrite Hci in A. apply filter_In in A as (A1 & A2). apply place_eqb_eq, classify_ci in A2 as (A2 & _).
+      eauto 6.
+  - intros (HG & HE & c & Hc & Hk). exists c. split; [exact Hc|]. apply lookup_one_In.
+    destruct (key_head uw _ _ Hk) as (p & r & k' & -> & Ek & _). inversion Ek; subst p k'.
+    destruct (str_eqb (HASHC :: r) (HASHC :: c)) eqn:E1.
+    + apply str_eqb_eq in E1. inversion E1; subst r. left. split; [reflexivity|]. split; [|exact HE].
+      apply Hsi. split; [exact HG|]. apply classify_si. eauto.
+    + apply str_eqb_neq in E1. right. split; [|exact HE]. rewrite Hci. apply filter_In. split; [exact HG|].
+      apply place_eqb_eq, classify_ci. auto.
+Qed.
+
+Lemma asked_iff C I s :
+  asked uw C I s = true <->
+  (exists c, In c C /\ key s = Some (DOT :: c)) \/ (exists i, In i I /\ key s = Some (HASHC :: i)).
+Proof.
+  unfold asked. destruct (key s) as [[|p k]|] eqn:Hk.
+  - split; [discriminate|]. intros [(c & _ & H)|(c & _ & H)]; discriminate.
+  - rewrite orb_true_iff, !andb_true_iff, !N.eqb_eq, !mem_str_In. split.
+    + intros [(-> & H)|(-> & H)]; eauto.
+    + intros [(c & Hc & E)|(c & Hc & E)]; inversion E; subst; auto.
+  - split; [discriminate|]. intros [(c & _ & H)|(c & _ & H)]; discriminate.
+Qed.
+
+Theorem lookup_set G C I E s :
+  In s (hidden (build G) C I E) <-> In s (lookup_ref uw G C I E).
+Proof.
+  unfold hidden, lookup_ref. rewrite in_app_iff, class_part, id_part, filter_In, andb_true_iff,
+    not_mem_str, asked_iff. tauto.
+Qed.
+
+Lemma lookup_one_nodup_class G E c :
+  NoDup G -> NoDup (lookup_one (simple_class (build G)) (complex_class (build G)) DOT E c).
+Proof.
+  intros HG. destruct (build_inv G) as [Hsc Hcc _ _ _]. unfold lookup_one.
+  fold (bucket c (complex_class (build G))).
+  assert (Hb : NoDup (filter (fun s => negb (mem_str s E)) (bucket c (complex_class (build G))))).
+  { rewrite Hcc. apply NoDup_filter, NoDup_filter, HG. }
+  replace (match map_get c (complex_class (build G)) with
+           | Some b => filter (fun s => negb (mem_str s E)) b | None => [] end)
+    with (filter (fun s => negb (mem_str s E)) (bucket c (complex_class (build G))))
+    by (unfold bucket; destruct (map_get c (complex_class (build G))); reflexivity).
+  destruct (mem_str c (simple_class (build G)) && negb (mem_str (DOT :: c) E)) eqn:E1; [|exact Hb].
+  cbn [app]. constructor; [|exact Hb]. intros Hin. apply filter_In in Hin as [Hin _].
+  rewrite Hcc in Hin. apply filter_In in Hin as [_ Hin]. apply place_eqb_eq, classify_cc in Hin as [_ Hin].
+  congruence.
+Qed.
+
+Lemma lookup_one_nodup_id G E c :
+  NoDup G -> NoDup (lookup_one (simple_id (build G)) (complex_id (build G)) HASHC E c).
+Proof.
+  intros HG. destruct (build_inv G) as [_ _ Hsi Hci _]. unfold lookup_one.
+  fold (bucket c (complex_id (build G))).
+  assert (Hb : NoDup (filter (fun s => negb (mem_str s E)) (bucket c (complex_id (build G))))).
+  { rewrite Hci. apply NoDup_filter, NoDup_filter, HG. }
+  replace (match map_get c (complex_id (build G)) with
+           | Some b => filter (fun s => negb (mem_str s E)) b | None => [] end)
+    with (filter (fun s => negb (mem_str s E)) (bucket c (complex_id (build G))))
+    by (unfold bucket; destruct (map_get c (complex_id (build G))); reflexivity).
+  destruct (mem_str c (simple_id (build G)) && negb (mem_str (HASHC :: c) E)) eqn:E1; [|exact Hb].
+  cbn [app]. constructor; [|exact Hb]. intros Hin. apply filter_In in Hin as [Hin _].
+  rewrite Hci in Hin. apply filter_In in Hin as [_ Hin]. apply place_eqb_eq, classify_ci in Hin as [_ Hin].
+  congruence.
+Qed.
+
+Lemma one_class_key G E c s :
+  In s (lookup_one (simple_class (build G)) (complex_class (build G)) DOT E c) -> key s = Some (DOT :: c).
+Proof.
+  intros H. assert (H' : In s (flat_map (lookup_one (simple_class (build G)) (complex_class (build G)) DOT E) [c])).
+  { cbn. rewrite app_nil_r. exact H. }
+  apply class_part in H' as (_ & _ & c' & [<-|[]] & Hk). exact Hk.
+Qed.
+
+Lemma one_id_key G E c s :
+  In s (lookup_one (simple_id (build G)) (complex_id (build G)) HASHC E c) -> key s = Some (HASHC :: c).
+Proof.
+  intros H. assert (H' : In s (flat_map (lookup_one (simple_id (build G)) (complex_id (build G)) HASHC E) [c])).
+  { cbn. rewrite app_nil_r. exact H. }
+  apply id_part in H' as (_ & _ & c' & [<-|[]] & Hk). exact Hk.
+Qed.
+
+Theorem lookup_nodup G C I E : NoDup G -> NoDup C -> NoDup I -> NoDup (hidden (build G) C I E).
+Proof.
+  intros HG HC HI. unfold hidden. apply NoDup_app_intro.
+  - apply NoDup_flat_map; auto.
+    + intros c _. apply lookup_one_nodup_class. exact HG.
+    + intros x y z _ _ Hx Hy. apply one_class_key in Hx, Hy. congruence.
+  - apply NoDup_flat_map; auto.
+    + intros c _. apply lookup_one_nodup_id. exact HG.
+    + intros x y z _ _ Hx Hy. apply one_id_key in Hx, Hy. congruence.
+  - intros s Hs Hs'. apply in_flat_map in Hs as (c & _ & Hs). apply in_flat_map in Hs' as (i & _ & Hs').
+    apply one_class_key in Hs. apply one_id_key in Hs'. rewrite Hs in Hs'. discriminate.
+Qed.
+
+Theorem lookup_perm G C I E :
+  NoDup G -> NoDup C -> NoDup I -> Permutation (hidden (build G) C I E) (lookup_ref uw G C I E).
+Proof.
+  intros HG HC HI. apply NoDup_Permutation.
+  - apply lookup_nodup; auto.
+  - unfold lookup_ref. apply NoDup_filter. exact HG.
+  - intros s. apply lookup_set.
+Qed.
+
+(* ---------------------------------------------------------------- reach *)
+Theorem reach_lookup G s k :
+  In s G -> key s = Some k ->
+  In s (hidden (build G) [tl k] [tl k] []) /\ ~ In s (misc (build G)).
+Proof.
+  intros HG Hk. split.
+  - apply lookup_set. unfold lookup_ref. apply filter_In. split; [exact HG|]. cbn [mem_str negb].
+    rewrite andb_true_r. apply asked_iff.
+    destruct (key_head uw _ _ Hk) as (p & r & k' & -> & -> & [->| ->]); cbn [tl]; [left|right];
+      exists k'; cbn; auto.
+  - intros Hm. apply (inv_mi _ _ (build_inv G)) in Hm as [_ Hm]. apply classify_misc_iff in Hm. congruence.
+Qed.
+
+Theorem reach_misc G s :
+  In s G -> key s = None ->
+  In s (misc (build G)) /\ forall C I E, ~ In s (hidden (build G) C I E).
+Proof.
+  intros HG Hk. split.
+  - apply (inv_mi _ _ (build_inv G)). split; [exact HG|]. apply classify_misc_iff. exact Hk.
+  - intros C I E Hin. apply lookup_set in Hin. unfold lookup_ref in Hin. apply filter_In in Hin as [_ Hin].
+    apply andb_true_iff in Hin as [Hin _]. apply asked_iff in Hin as [(c & _ & H)|(c & _ & H)]; congruence.
+Qed.
+
+Theorem reach_once G s :
+  In s G ->
+  ((exists C I, In s (hidden (build G) C I [])) /\ ~ In s (misc (build G))) \/
+  ((forall C I E, ~ In s (hidden (build G) C I E)) /\ In s (misc (build G))).
+Proof.
+  intros HG. destruct (key s) as [k|] eqn:Hk.
+  - left. destruct (reach_lookup G s k HG Hk) as [A B]. split; [eauto|exact B].
+  - right. destruct (reach_misc G s HG Hk) as [A B]. auto.
+Qed.
+
+(* nothing is in the stores that was not added *)
+Theorem lookup_sound G C I E s : In s (hidden (build G) C I E) -> In s G /\ ~ In s E.
+Proof.
+  intros H. apply lookup_set in H. unfold lookup_ref in H. apply filter_In in H as [A B].
+  apply andb_true_iff in B as [_ B]. apply not_mem_str in B. auto.
+Qed.
+End Stores.
